@@ -295,5 +295,39 @@ def rule_codec_api(ctx):
     ctx.floor(R, "distinct external callees in codecs", n, 50)
 
 
-RULES = [("C09.1", rule_read_build_agree), ("C09.2", rule_no_unordered_iteration), ("C09.3", rule_no_narrowing), ("C09.4", rule_canonical_hash),
+
+def rule_reader_appends(ctx):
+    R = "C09.8"
+    ctx.rule(R, "the field reader only appends: Reader::read_field adds every value it reads to the caller's list (push / extend) and never replaces, clears or truncates it - a field whose values arrive in several records (packed and unpacked, or several packed chunks) keeps all of them, so every valid serialisation has the same canonical form")
+    l = [f for f in ctx.F.fns if f.qname.endswith("proto_fmt::Reader::read_field") and not f.in_testonly()]
+    ctx.floor(R, "Reader::read_field bodies", len(l), 1)
+    for f in l:
+        T = ctx.T(f)
+        outs = common.pnames(f, "&mut std::vec::Vec<std::vec::Vec<u8>>")
+        ctx.ob(R, "accumulator parameter", bool(outs), "read_field receives the accumulator as &mut Vec<Vec<u8>> (%s)" % sorted(outs) if outs else "accumulator parameter of read_field not found", f.loc())
+        if not outs:
+            continue
+        bad = []
+        adds = 0
+        for bi, b in enumerate(f.blocks):
+            for st in b["s"]:
+                if st["k"] == "assign" and st["p"].get("pr") and st["p"]["pr"][0] == "*":
+                    base = T.local(st["p"]["l"])
+                    if common.is_p(base, outs):
+                        bad.append("assignment `*%s = ..`" % base[-1])
+        for c in T.calls():
+            if not c["q"].startswith("std::vec::Vec::") and not c["q"].startswith("std::iter::Extend::"):
+                continue
+            a = T.args_of(c)
+            if a and common.is_p(a[0], outs):
+                m = c["q"].rsplit("::", 1)[1]
+                if m in ("push", "extend", "extend_from_slice", "append", "reserve", "len", "is_empty", "capacity"):
+                    adds += int(m in ("push", "extend", "extend_from_slice", "append"))
+                else:
+                    bad.append("%s()" % m)
+        ctx.ob(R, "accumulator is only appended to", not bad and adds >= 1, "values are added with push/extend (%d site(s)); nothing replaces or removes earlier values" % adds if not bad and adds else
+               "Reader::read_field modifies the caller's value list by %s: values of the same field read from an earlier record are lost, so valid serialisations of one message canonicalise differently" % (bad or "no append at all"), f.loc())
+
+
+RULES = [("C09.8", rule_reader_appends), ("C09.1", rule_read_build_agree), ("C09.2", rule_no_unordered_iteration), ("C09.3", rule_no_narrowing), ("C09.4", rule_canonical_hash),
          ("C09.5", rule_canonicaliser), ("C09.6", rule_schema_gate), ("C09.7", rule_codec_api)]
